@@ -81,6 +81,10 @@ def judge(ctx, label, scripts, impl, dis, reported):
     tie.report_disagreements(ctx, [d for d in dis if d[0] not in bad], label)
 
 
+def render_seq(xs):
+    return "[\n" + "".join(f"    {x},\n" for x in xs) + "]\n"
+
+
 def repeated_evaluation_scripts():
     """an expression that builds a container builds a NEW one every time it is evaluated (loop iterations, calls), and `for`
     binds a pair of its own in every iteration: containers kept from different evaluations are distinct and independent"""
@@ -110,6 +114,24 @@ def repeated_evaluation_scripts():
                     f"print(fs[0]() === fs[0]())\nprint(fs[0]())\n", f"false\ntrue\n{first}"))
     out.append((("collect", "loop"), "src := [1, 2, 3]\nkeep := []\nfor [i, v] in [1, 2] {\n    [h, ..t] := src\n    keep += [t]\n}\nprint(keep[0] === keep[1])\n"
                 "keep[0][0] = 9\nprint(keep[1][0])\nprint(src)\n", "false\n2\n[\n    1,\n    2,\n    3,\n]\n"))
+    # an update of a copy that has the SAME NAME as the original (parameter, loop variable, block-local, closure parameter)
+    # stays in the copy: `x op= …` and `x = …` act on the nearest declaration
+    kinds = [("int", "5", "+= 1", "6", "5"), ("int", "5", "-= 2", "3", "5"), ("str", '"s"', '+= "!"', "s!", "s"),
+             ("list", "[1]", "+= [2]", render_seq([1, 2]), render_seq([1])), ("int", "5", "= 9", "9", "5"),
+             ("list", "[1]", "= [7]", render_seq([7]), render_seq([1]))]
+    for kind, init, upd, newv, oldv in kinds:
+        nl = "" if newv.endswith("\n") else "\n"
+        ol = "" if oldv.endswith("\n") else "\n"
+        out.append(((kind + upd[:2], "same-name-parameter"), f"x := {init}\nfn f(x) {{\n    x {upd}\n    print(x)\n    return 0\n}}\nf(x)\nprint(x)\n",
+                    f"{newv}{nl}{oldv}{ol}"))
+        out.append(((kind + upd[:2], "same-name-closure-parameter"), f"x := {init}\ng := fn(x) {{\n    x {upd}\n    return x\n}}\nprint(g(x))\nprint(x)\n",
+                    f"{newv}{nl}{oldv}{ol}"))
+        out.append(((kind + upd[:2], "same-name-for-variable"), f"x := {init}\nfor [i, x] in [{init}] {{\n    x {upd}\n    print(x)\n}}\nprint(x)\n",
+                    f"{newv}{nl}{oldv}{ol}"))
+        out.append(((kind + upd[:2], "same-name-block-local"), f"x := {init}\n{{\n    x := {init}\n    x {upd}\n    print(x)\n}}\nprint(x)\n",
+                    f"{newv}{nl}{oldv}{ol}"))
+        out.append(((kind + upd[:2], "same-name-nested-call"), f"x := {init}\nfn outer() {{\n    x := {init}\n    fn inner() {{\n        x {upd}\n        return 0\n    }}\n"
+                    f"    inner()\n    print(x)\n    return 0\n}}\nouter()\nprint(x)\n", f"{newv}{nl}{oldv}{ol}"))
     return [((k[0], k[1], "repeated-evaluation"), s, o) for k, s, o in out]
 
 
